@@ -7,9 +7,9 @@ use proc_macro2::{Ident, TokenStream};
 use quote::{format_ident, quote};
 
 use super::common::{
-    generate_derives, generate_enum_type, generate_field_type, generate_rule_parse_function,
-    safe_ident, Arity, Codegen, CodegenRule, CodegenSettings, FieldDescriptor, PublicType,
-    RecordPosition,
+    check_ident, check_path, generate_derives, generate_enum_type, generate_field_type,
+    generate_rule_parse_function, safe_ident, Arity, Codegen, CodegenRule, CodegenSettings,
+    FieldDescriptor, PublicType, RecordPosition,
 };
 use crate::grammar::{DirectiveExpression, Grammar, Rule};
 
@@ -26,6 +26,14 @@ impl CodegenRule for Rule {
         };
 
         let fields = self.definition.get_fields(grammar)?;
+        for field in &fields {
+            if field.name != "_override" {
+                check_ident("Field name", field.name)?;
+            }
+            for field_type in field.types.keys() {
+                check_ident("Field type", field_type)?;
+            }
+        }
 
         self.check_flags(&flags, &settings)?;
 
@@ -314,6 +322,9 @@ impl Rule {
                 None
             }
         });
+        for ps in check_name_parts.clone() {
+            check_path("@check function", ps)?;
+        }
         let check_idents = check_name_parts.clone().map(|ps| {
             let part_idents = ps.iter().map(safe_ident);
             quote!(#(#part_idents)::*)
